@@ -29,6 +29,8 @@ PROPS = {
             T("TestC03Enum", "fleet", 1, 1, enum=True, qshards=4, shards=8, procs=4),
             T("TestC03Loop", "fleet", 600, 64000, shards=16, qshards=4, procs=4),
             T("TestC03Writer", "kv", 400, 32000, shards=16, qshards=4, procs=4),
+            # the sweeper's own non-empty write transaction lands between an application commit and the loop's next look
+            T("TestC03SweepCommit", "fleet", 1, 1, enum=True, qshards=4, shards=8, procs=4),
         ],
         "known_tests": [T("TestKnownC03", "fleet", 1, 1)],
         "assumptions": [
@@ -46,6 +48,10 @@ PROPS = {
             # crash / restart histories of the C05 fleet (emptied restarts, slow own snapshot, peers merged first) with the
             # clause: a loop that reports the LMDB's last transaction as uploaded has published every key its application put
             T("TestC05Enum", "fleet", 1, 1, enum=True, qshards=8, shards=8, procs=4),
+            # a commit made while an older snapshot of a peer is handed over again (its newer blob undecodable / gone)
+            T("TestC09Redeliver", "fleet", 1, 1, enum=True, qshards=4, shards=8, procs=4),
+            # the sweeper's own non-empty write transaction lands between an application commit and the loop's next look
+            T("TestC09SweepCommit", "fleet", 1, 1, enum=True, qshards=4, shards=8, procs=4),
         ],
         "known_tests": [T("TestKnownC03", "fleet", 1, 1)],
         "assumptions": [
